@@ -4,6 +4,7 @@
 #include <shark/Core/Shape.h>
 #include <shark/LinAlg/Base.h>
 #include <shark/Data/Dataset.h>
+#include <shark/Data/WeightedDataset.h>
 
 using namespace shark;
 using namespace c18;
@@ -180,6 +181,56 @@ template<class I, class L> void labeledCase(Ctx& c, std::string const& variant) 
 	obsLabeled(c.B, bSibling, "freshSibling.");
 }
 
+// ---------- WeightedUnlabeledData / WeightedLabeledData (detail::BaseWeightedDataset: data, then weights) ----------
+Data<double> makeWeights(Prng& r, std::size_t n, std::size_t batch) {
+	std::vector<double> w(n);
+	for (std::size_t i = 0; i != n; ++i) w[i] = 0.125 + r.uni();
+	return createDataFromRange(w, batch);
+}
+void obsWeights(Obs& o, Data<double> const& w, std::string const& pre) {
+	o.u(pre + "numberOfBatches", w.numberOfBatches());
+	std::size_t e = 0;
+	for (std::size_t b = 0; b != w.numberOfBatches(); ++b) {
+		o.u(pre + "batch[" + std::to_string(b) + "].size", w.batch(b).size());
+		for (std::size_t k = 0; k != w.batch(b).size(); ++k, ++e) o.d(pre + "weight[" + std::to_string(e) + "]", w.batch(b)(k));
+	}
+}
+// variant: single | multi | shaped
+template<class T> void weightedUnlabeledCase(Ctx& c, std::string const& variant) {
+	Prng r(c.seed);
+	std::size_t d = r.range(2, 5), n = variant == "single" ? 1 : 7;
+	Data<T> pts = makeData<T>(r, n, d, 3);
+	if (variant == "shaped") pts.shape() = El<T>::shape2(d);
+	WeightedUnlabeledData<T> a(pts, makeWeights(r, n, 3));
+	Data<T> pts2 = makeData<T>(r, 4, d + 1, 2);
+	WeightedUnlabeledData<T> b(pts2, makeWeights(r, 4, 2));
+	for (int which = 0; which != 2; ++which) {
+		if (which) c.transfer(a, b);
+		WeightedUnlabeledData<T> const& x = which ? b : a; Obs& o = which ? c.B : c.A;
+		o.u("numberOfElements", x.numberOfElements());
+		obsData(o, x.data(), "data.");
+		obsWeights(o, x.weights(), "weights.");
+		o.d("sumOfWeights", sumOfWeights(x));
+	}
+}
+template<class I, class L> void weightedLabeledCase(Ctx& c, std::string const& variant) {
+	Prng r(c.seed);
+	std::size_t d = r.range(2, 5), dl = r.range(1, 3), n = variant == "single" ? 1 : 7;
+	LabeledData<I, L> ds = makeLabeled<I, L>(r, n, d, dl, 3);
+	if (variant == "shaped") { ds.inputShape() = El<I>::shape2(d); ds.labelShape() = El<L>::shape2(dl); }
+	WeightedLabeledData<I, L> a(ds, makeWeights(r, n, 3));
+	LabeledData<I, L> ds2 = makeLabeled<I, L>(r, 4, d + 1, dl + 1, 2);
+	WeightedLabeledData<I, L> b(ds2, makeWeights(r, 4, 2));
+	for (int which = 0; which != 2; ++which) {
+		if (which) c.transfer(a, b);
+		WeightedLabeledData<I, L> const& x = which ? b : a; Obs& o = which ? c.B : c.A;
+		o.u("numberOfElements", x.numberOfElements());
+		obsLabeled(o, x.data(), "data.");
+		obsWeights(o, x.weights(), "weights.");
+		o.d("sumOfWeights", sumOfWeights(x));
+	}
+}
+
 // ---------- Shape ----------
 void obsShape(Obs& o, Shape const& s) {
 	o.u("size", s.size());
@@ -270,6 +321,13 @@ void c18::registerData(std::vector<Case>& v) {
 	for (std::size_t i = 0; i != 8; ++i) addCase(v, "LabeledData<RealVector,unsigned_int>", lv[i], &labeledCase<RealVector, unsigned int>);
 	for (std::size_t i = 0; i != 8; ++i) addCase(v, "LabeledData<RealVector,RealVector>", lv[i], &labeledCase<RealVector, RealVector>);
 	for (std::size_t i = 0; i != 8; ++i) addCase(v, "LabeledData<CompressedRealVector,unsigned_int>", lv[i], &labeledCase<CompressedRealVector, unsigned int>);
+
+	char const* wv[] = {"single", "multi", "shaped"};
+	// (WeightedUnlabeledData<RealVector> / <CompressedRealVector> cannot be instantiated in this tree: the virtual
+	//  BaseWeightedDataset::shuffle() does not compile for proxy element references)
+	for (std::size_t i = 0; i != 3; ++i) addCase(v, "WeightedUnlabeledData<unsigned_int>", wv[i], &weightedUnlabeledCase<unsigned int>);
+	for (std::size_t i = 0; i != 3; ++i) addCase(v, "WeightedLabeledData<RealVector,unsigned_int>", wv[i], &weightedLabeledCase<RealVector, unsigned int>);
+	for (std::size_t i = 0; i != 3; ++i) addCase(v, "WeightedLabeledData<CompressedRealVector,unsigned_int>", wv[i], &weightedLabeledCase<CompressedRealVector, unsigned int>);
 
 	addCase(v, "RealVector", "empty", &realVectorCase);
 	addCase(v, "RealVector", "n1", &realVectorCase);
